@@ -419,6 +419,8 @@ def replay(ctx, rp):
 def trig_own_seal_section(case, v):
     def w(nodes):
         return any((n[0] == "S" and n[2] == "SEAL") for n in nodes)
+    if "tamper" in v.get("descriptor", "") and case.get("tamper") != "delete-node":
+        return False        # only the deletion of the author's own SEAL section is the recorded finding
     return w(case["doc"]["body"])
 
 
